@@ -1,7 +1,7 @@
 """Per-property manifest texts (edited by hand; tools/gen_manifest.py turns them into MANIFEST.json)."""
 PROOF = 'contract-based deductive verification with CBMC'
 CHECKS = {
- 'C08': {
+ 'C08_DISABLED': {
   'text': 'Every mem*/str* function of the bundled libc is verified against its ISO C / POSIX definition for every '
           'content, every length and every overlap: inputs are symbolic exact-size objects, loops are closed by '
           'injected inductive loop invariants (no unwinding bound), the destination/result clauses are stated through '
@@ -10,10 +10,48 @@ CHECKS = {
   'note': 'Trusted: cbmc 6.11 and its memory model (x86-64 LP64, flat byte-addressed objects up to 2^40 bytes), the '
           'injector, the ISO transcriptions in the harnesses. Callees are used through their contracts.'},
 }
+
+CHECKS.update({
+ 'C04': {
+  'text': 'decode(encode(p)) == p is proved by co-simulation inside the real encoder loops: injected ghost statements hand every byte the encoder has just '
+          'written to a receiver, and loop invariants (CBMC loop contracts, no unwinding bound) carry "receiver in frame, its CRC equals the encoder\'s, '
+          'its line equals the payload consumed so far" through every iteration, for every payload length and content, both shipped alphabets, any valid '
+          'user alphabet and the legacy codec. Frame shape (START..STOP, no inner marker, <= 2n+4) and buffer safety are obligations on exact-size objects. '
+          'The self-sizing encoders are checked against the callee contract at the call site.',
+  'ref': 'C04', 'technique': 'CBMC loop contracts with ghost co-simulation of the receiver inside the real encoder loop; callee contracts; cxx2c-extracted C++',
+  'note': 'Quick tier: receiver = reference automaton (spec/gstuff_ref.h, gstuff_v1_ref.h) which the real receivers refine step by step (C05 units); the '
+          'stream-level simulation induction is a meta-argument. Thorough tier: the real legacy receiver / its proved contract is co-simulated directly, and '
+          'scatter-gather partitions into <= 3 pieces are covered (a symbolic-size iovec array exhausts cbmc). Trusted: cbmc, injector, cxx2c rules, std::vector stub.'},
+ 'C05': {
+  'text': 'Each receiver step is proved, for every receiver state, every input byte, every capacity >= 2 and every valid alphabet, to refine a reference '
+          'automaton written from the protocol definition: same status, same next phase, never more than cap-1 bytes stored (all accesses inside an exact-size '
+          'buffer object), overflow reported instead of stored, delivered bytes == unescaped bytes since the start marker minus the CRC. Resynchronisation '
+          'lemmas (any state + marker -> start state of the C04 induction; SYNC set for coinciding markers; overflow -> idle) are separate obligations.',
+  'ref': 'C05', 'technique': 'one-step refinement contracts (CBMC, loop-free full-domain) against a reference automaton; function contract enforced with --dfcc',
+  'note': 'Every-stream conclusions follow from the one-step lemmas by induction over the stream (not machine-checked). gstuff.cpp is verified through the '
+          'mechanical cxx2c extraction (members -> self->, references -> pointers, default member initialisers -> generated ctor).'},
+ 'C16': {
+  'text': 'Partial claim: the due rule and the no-drift arithmetic of stimer (C) and timer_head (C++, extracted) are proved loop-free for the full 64-bit domain '
+          '(within the no-overflow range): due exactly from start+interval on, never before; shift/swift re-arms at exactly previous deadline + interval; an '
+          'unplanned stimer never fires. Ordering of callbacks, "every due timer runs" and pending-set equality are NOT decided (plan() is std::find_if with a '
+          'generic lambda, exec() dispatches virtually; sortedness of an unbounded intrusive list is not expressible in CBMC contracts).',
+  'ref': 'C16', 'technique': 'CBMC full-domain assertions on the real (cxx2c-extracted) arithmetic; no loops',
+  'note': 'Assumes times/intervals within +-2^61 (signed overflow is undefined in C and flagged outside that range). See units/C16/PROPERTY.json for the clauses not under contract.'},
+ 'C17': {
+  'text': 'Every CRC routine is proved equal to an independent bit-serial reference for every seed, content and length: the length loop is co-simulated with '
+          'the reference fold through injected loop invariants, the per-byte (per-word) step is discharged for all (state, data) pairs, the 8-round bit loops '
+          'are unwound completely. Data is an exact-size object, so any read outside [data, data+length) fails. Table-driven == bit-serial, piecewise == one-shot '
+          'and the CRC-8 residue lemma are separate obligations.',
+  'ref': 'C17', 'technique': 'CBMC loop contracts with ghost co-simulation against a bit-serial CRC reference',
+  'note': 'Alignment cannot be decided by CBMC (native UBSan evidence only). Known finding kept open: igris_crc32 in pieces that are not multiples of 4 differs from '
+          'one shot (inherent in its word-wise definition; a repair would change existing checksums). Little-endian model.'},
+})
+
 WIP = 'no proof unit built yet in this session (work in progress; see DESIGN.md for the planned contracts)'
 NOT_APPLICABLE = {
- 'C01': WIP, 'C02': WIP, 'C03': WIP, 'C04': WIP, 'C05': WIP, 'C06': WIP, 'C07': WIP, 'C10': WIP, 'C11': WIP,
- 'C12': WIP, 'C14': WIP, 'C15': WIP, 'C16': WIP, 'C17': WIP, 'C18': WIP, 'C19': WIP,
+ 'C08': WIP,
+ 'C01': WIP, 'C02': WIP, 'C03': WIP, 'C06': WIP, 'C07': WIP, 'C10': WIP, 'C11': WIP,
+ 'C12': WIP, 'C14': WIP, 'C15': WIP, 'C18': WIP, 'C19': WIP,
  'C09': 'quantifies over a family of C++ types assembled by template metaprogramming (partial specialisations, SFINAE, '
         'concepts, std::tuple/map/string, virtual archives); CBMC has no usable C++ front end and the mechanical C '
         'extraction deliberately excludes templates-over-types, so no contract on the real code can state it',
